@@ -135,6 +135,9 @@ fn check_simplex<const D: usize>(rep: &Report, cn: &Cn, base: &[[f64; D]], perms
         // with vertex positions instead of edge lengths show up here; coordinates stay exactly representable
         variants.push(("translated1048576".into(), base.iter().map(|p| std::array::from_fn(|i| p[i] + 1048576.0 * (1.0 + i as f64))).collect(), 1.0));
     }
+    // 2^30 away (every dimension): squared coordinates no longer fit in 53 bits, so any formula that is not evaluated
+    // relative to a vertex of the simplex cancels catastrophically; the coordinates themselves stay exact
+    variants.push(("translated1073741824".into(), base.iter().map(|p| std::array::from_fn(|i| p[i] + 1073741824.0 * if i % 2 == 0 { 1.0 } else { -1.0 })).collect(), 1.0));
     for s in [2f64.powi(10), 2f64.powi(-10)] {
         variants.push((format!("scaled{s:e}"), base.iter().map(|p| std::array::from_fn(|i| p[i] * s)).collect(), s));
     }
@@ -207,8 +210,14 @@ fn check_simplex<const D: usize>(rep: &Report, cn: &Cn, base: &[[f64; D]], perms
             continue;
         }
         cn.asserted.fetch_add(1, Ordering::Relaxed);
+        // "small relative error" is relative to the conditioning of the input: a simplex of diameter d at distance m
+        // from the origin cannot be resolved better than about eps * m / d (its absolute circumcentre is not even
+        // representable more finely), so far translations get that allowance on top of 1e-9
+        let maxabs = pts.iter().flat_map(|p| p.iter().map(|x| x.abs())).fold(0.0, f64::max);
+        let diam_nd = pts.iter().flat_map(|a| pts.iter().map(move |b| (0..D).map(|k| (a[k] - b[k]).powi(2)).sum::<f64>().sqrt())).fold(0.0, f64::max);
+        let rel_tol = REL.max(64.0 * f64::EPSILON * maxabs / diam_nd.max(f64::MIN_POSITIVE));
         let cmp = |f: &str, got: &Result<f64, String>, want: f64| match got {
-            Ok(g) if rel_ok(*g, want) => {}
+            Ok(g) if (*g - want).abs() <= rel_tol * want.abs().max(FLOOR) => {}
             other => {
                 rep.violation(Finding { signature: sig("measure_wrong", f), description: format!("{f}({pts:?}) = {other:?}, exact value {want:e}"), replay: replay(pts, json!({"exact": want})) });
             }
@@ -222,7 +231,7 @@ fn check_simplex<const D: usize>(rep: &Report, cn: &Cn, base: &[[f64; D]], perms
             }
         }
         match &lm.circumcenter {
-            Ok(c) if c.iter().zip(em.circumcenter.iter()).all(|(a, b)| (a - b).abs() <= REL * (em.circumradius + b.abs()).max(FLOOR)) => {}
+            Ok(c) if c.iter().zip(em.circumcenter.iter()).all(|(a, b)| (a - b).abs() <= rel_tol * (em.circumradius + b.abs()).max(FLOOR)) => {}
             other => {
                 rep.violation(Finding { signature: sig("measure_wrong", "circumcenter"), description: format!("circumcenter({pts:?}) = {other:?}, exact {:?}", em.circumcenter), replay: replay(pts, json!(null)) });
             }
